@@ -169,24 +169,41 @@ Qed.
 
 (* ---- one call ----------------------------------------------------------------------------------- *)
 
-Lemma call_nonnil r e :
+(* fix F16: the encoder never fails on an error object *)
+Lemma transit_total w : transit w = Some (sent w).
+Proof. unfold transit, transit_gen, sent. destruct (wire_data (we_data w)); reflexivity. Qed.
+
+Lemma call_gen_nonnil f r e :
   is_nil e = false ->
-  call r e = match transit (to_wire e) with
-             | Some w' => OErr (from_wire w')
-             | None => OLost
-             end.
+  call_gen f r e = match transit_gen f (to_wire e) with
+                   | Some w' => OErr (from_wire w')
+                   | None => OLost
+                   end.
 Proof.
-  intros H. unfold call, settle, invoke, invoke_gen. rewrite H. cbn [respond andb]. rewrite H. reflexivity.
+  intros H. unfold call_gen, settle_gen, deliver_gen, invoke, invoke_gen. rewrite H. cbn [respond andb]. rewrite H.
+  destruct (transit_gen f (to_wire e)); reflexivity.
 Qed.
+
+Lemma call_nonnil r e : is_nil e = false -> call r e = OErr (from_wire (sent (to_wire e))).
+Proof.
+  intros H. unfold call. rewrite (call_gen_nonnil true r e H).
+  change (transit_gen true) with transit. rewrite transit_total. reflexivity.
+Qed.
+
+Lemma call_gen_nil_ok f raw e : is_nil e = true -> call_gen f (ResJson raw) e = OResult raw.
+Proof. intros H. unfold call_gen, settle_gen, deliver_gen, invoke, invoke_gen. rewrite H. reflexivity. Qed.
 
 Lemma call_nil_ok raw e : is_nil e = true -> call (ResJson raw) e = OResult raw.
-Proof. intros H. unfold call, settle, invoke, invoke_gen. rewrite H. reflexivity. Qed.
+Proof. apply call_gen_nil_ok. Qed.
 
-Lemma call_nil_bad why e : is_nil e = true -> call (ResBad why) e = call (ResJson []) why.
+Lemma call_gen_nil_bad f why e : is_nil e = true -> call_gen f (ResBad why) e = call_gen f (ResJson []) why.
 Proof.
-  intros H. unfold call, settle, invoke, invoke_gen. rewrite H.
+  intros H. unfold call_gen, settle_gen, deliver_gen, invoke, invoke_gen. rewrite H.
   destruct (is_nil why) eqn:Hw; cbn [respond andb]; rewrite Hw; reflexivity.
 Qed.
+
+Lemma call_nil_bad why e : is_nil e = true -> call (ResBad why) e = call (ResJson []) why.
+Proof. apply call_gen_nil_bad. Qed.
 
 Lemma to_wire_other e :
   is_top_jrpc e = false ->
@@ -200,69 +217,138 @@ Proof.
   - apply Z.eqb_neq in E. exact E.
 Qed.
 
-(* what the caller gets for an error that is not itself a *Error *)
+(* what the caller gets for an error that is not itself a *Error (with or without fix F16) *)
+Lemma call_gen_other f r e :
+  is_nil e = false -> is_top_jrpc e = false ->
+  call_gen f r e = OErr (from_wire {| we_code := wire_code e; we_msg := sanitize_utf8 (error_text e); we_data := [] |}).
+Proof.
+  intros Hn Ht. rewrite (call_gen_nonnil f r e Hn), (to_wire_other e Ht). reflexivity.
+Qed.
+
 Lemma call_other r e :
   is_nil e = false -> is_top_jrpc e = false ->
   call r e = OErr (from_wire {| we_code := wire_code e; we_msg := sanitize_utf8 (error_text e); we_data := [] |}).
-Proof.
-  intros Hn Ht. rewrite (call_nonnil r e Hn), (to_wire_other e Ht). reflexivity.
-Qed.
+Proof. apply call_gen_other. Qed.
 
-(* what the caller gets for a *Error *)
+(* what the caller gets for a *Error: always a reply; data that do not encode are dropped *)
 Lemma call_jrpc r c m d :
   call r (EJrpc c m d) =
+  OErr (from_wire {| we_code := c; we_msg := sanitize_utf8 m;
+                     we_data := match wire_data d with Some d' => d' | None => [] end |}).
+Proof. rewrite call_nonnil by reflexivity. reflexivity. Qed.
+
+(* before fix F16 *)
+Lemma call_pre16_jrpc r c m d :
+  call_gen false r (EJrpc c m d) =
   match wire_data d with
   | Some d' => OErr (from_wire {| we_code := c; we_msg := sanitize_utf8 m; we_data := d' |})
   | None => OLost
   end.
 Proof.
-  rewrite call_nonnil by reflexivity. cbn [to_wire]. unfold transit. cbn [we_data we_code we_msg].
+  rewrite call_gen_nonnil by reflexivity. cbn [to_wire]. unfold transit_gen. cbn [we_data we_code we_msg].
   destruct (wire_data d); reflexivity.
 Qed.
+
+(* ---- C14: a reply is never lost (fix F16) ---------------------------------------------------------- *)
+
+Lemma call_never_lost r e : call r e <> OLost.
+Proof.
+  destruct (is_nil e) eqn:Hn.
+  - destruct r as [raw|why].
+    + rewrite (call_nil_ok raw e Hn). discriminate.
+    + rewrite (call_nil_bad why e Hn). destruct (is_nil why) eqn:Hw.
+      * rewrite (call_nil_ok [] why Hw). discriminate.
+      * rewrite (call_nonnil _ why Hw). discriminate.
+  - rewrite (call_nonnil r e Hn). discriminate.
+Qed.
+
+Lemma call_has_code r e : exists c, outcome_code (call r e) = Some c.
+Proof.
+  pose proof (call_never_lost r e) as H. destruct (call r e) as [raw|e'|]; cbn [outcome_code]; eauto. contradiction.
+Qed.
+
+(* before the fix exactly the top-level *Errors whose Data is not JSON lost their reply, and the
+   fix changes nothing for any other error *)
+Lemma lost_pre16_iff r e :
+  is_nil e = false -> (call_gen false r e = OLost <-> deliverable e = false).
+Proof.
+  intros Hn. destruct (is_top_jrpc e) eqn:Ht.
+  - destruct e; try discriminate. rewrite call_pre16_jrpc. cbn [deliverable].
+    destruct (wire_data data); split; intros H; try reflexivity; discriminate.
+  - rewrite (call_gen_other false r e Hn Ht).
+    assert (Hdel : deliverable e = true) by (destruct e; try reflexivity; discriminate).
+    rewrite Hdel. split; intros H; discriminate.
+Qed.
+
+Lemma fix16_conservative r e :
+  is_nil e = false -> deliverable e = true -> call_gen false r e = call r e.
+Proof.
+  intros Hn Hd. destruct (is_top_jrpc e) eqn:Ht.
+  - destruct e; try discriminate. rewrite call_pre16_jrpc, call_jrpc. cbn [deliverable] in Hd.
+    destruct (wire_data data); [reflexivity|discriminate].
+  - rewrite (call_gen_other false r e Hn Ht), (call_other r e Hn Ht). reflexivity.
+Qed.
+
+Example lost_pre16_nonvacuous :
+  let e := EJrpc 7 [109]%N [123; 98; 97; 100]%N in
+  is_nil e = false /\ deliverable e = false /\ call_gen false (ResJson [49]%N) e = OLost /\
+  deliverable (EJrpc 7 [109]%N [32; 49]%N) = true /\
+  call_gen false (ResJson [49]%N) (EJrpc 7 [109]%N [32; 49]%N) = OErr (EJrpc 7 [109]%N [49]%N).
+Proof. vm_compute. repeat split. Qed.
 
 (* ---- C14: the code is preserved ----------------------------------------------------------------- *)
 
 Lemma code_preserved r e :
   is_nil e = false -> code_dom e = true -> outcome_code (call r e) = Some (error_code e).
 Proof.
-  intros Hn Hd. unfold code_dom in Hd. apply andb_true_iff in Hd as [Hdel Hc].
+  intros Hn Hd. unfold code_dom in Hd.
   destruct (is_top_jrpc e) eqn:Ht.
-  - destruct e; try discriminate. rewrite call_jrpc. cbn [deliverable] in Hdel.
-    destruct (wire_data data); [|discriminate].
+  - destruct e; try discriminate. rewrite call_jrpc.
     cbn [outcome_code]. rewrite error_code_from_wire. reflexivity.
   - rewrite (call_other r e Hn Ht). cbn [outcome_code]. rewrite error_code_from_wire.
     cbn [we_code orb] in *. unfold wire_code.
     destruct (error_code e =? NoError); [discriminate|reflexivity].
 Qed.
 
-(* ... and only there: outside code_dom the caller's code differs or there is no reply *)
+(* ... and only there: outside code_dom the caller's code differs *)
 Lemma code_preserved_iff r e :
   is_nil e = false ->
   (outcome_code (call r e) = Some (error_code e) <-> code_dom e = true).
 Proof.
   intros Hn. split; [|apply code_preserved; exact Hn].
   intros H. unfold code_dom.
-  destruct (is_top_jrpc e) eqn:Ht.
-  - destruct e; try discriminate. rewrite call_jrpc in H. cbn [deliverable].
-    destruct (wire_data data); [reflexivity|discriminate].
-  - assert (Hdel : deliverable e = true) by (destruct e; try reflexivity; discriminate).
-    rewrite Hdel. cbn [andb orb].
-    rewrite (call_other r e Hn Ht) in H. cbn [outcome_code] in H. rewrite error_code_from_wire in H.
-    cbn [we_code] in H. unfold wire_code in H.
-    destruct (error_code e =? NoError) eqn:E; [|reflexivity].
-    apply Z.eqb_eq in E. rewrite E in H. discriminate.
+  destruct (is_top_jrpc e) eqn:Ht; [reflexivity|].
+  cbn [orb].
+  rewrite (call_other r e Hn Ht) in H. cbn [outcome_code] in H. rewrite error_code_from_wire in H.
+  cbn [we_code] in H. unfold wire_code in H.
+  destruct (error_code e =? NoError) eqn:E; [|reflexivity].
+  apply Z.eqb_eq in E. rewrite E in H. discriminate.
 Qed.
 
 Lemma code_dom_spec e :
-  code_dom e = true <-> deliverable e = true /\ (is_top_jrpc e = true \/ error_code e <> NoError).
+  code_dom e = true <-> (is_top_jrpc e = true \/ error_code e <> NoError).
 Proof.
-  unfold code_dom. rewrite andb_true_iff, orb_true_iff, negb_true_iff, Z.eqb_neq. tauto.
+  unfold code_dom. rewrite orb_true_iff, negb_true_iff, Z.eqb_neq. tauto.
 Qed.
 
 Lemma code_preserved_explicit r e :
-  is_nil e = false -> deliverable e = true -> (is_top_jrpc e = true \/ error_code e <> NoError) ->
+  is_nil e = false -> (is_top_jrpc e = true \/ error_code e <> NoError) ->
   outcome_code (call r e) = Some (error_code e).
-Proof. intros Hn Hd Hc. apply code_preserved; [exact Hn|]. apply code_dom_spec. auto. Qed.
+Proof. intros Hn Hc. apply code_preserved; [exact Hn|]. apply code_dom_spec. exact Hc. Qed.
+
+(* a *Error that is the returned value always keeps its code, whatever its message and data *)
+Lemma code_preserved_jrpc r c m d : outcome_code (call r (EJrpc c m d)) = Some c.
+Proof. rewrite call_jrpc. cbn [outcome_code]. rewrite error_code_from_wire. reflexivity. Qed.
+
+(* before fix F16 the domain was smaller: a reply had to be produced as well *)
+Lemma code_preserved_pre16_iff r e :
+  is_nil e = false ->
+  (outcome_code (call_gen false r e) = Some (error_code e) <-> code_dom_pre16 e = true).
+Proof.
+  intros Hn. unfold code_dom_pre16. destruct (deliverable e) eqn:Hd.
+  - rewrite (fix16_conservative r e Hn Hd). cbn [andb]. apply code_preserved_iff. exact Hn.
+  - rewrite (proj2 (lost_pre16_iff r e Hn) Hd). cbn [andb outcome_code]. split; intros H; discriminate.
+Qed.
 
 Lemma code_preserved_nil raw e :
   is_nil e = true -> outcome_code (call (ResJson raw) e) = Some (error_code e).
@@ -279,9 +365,8 @@ Example code_preserved_nil_nonvacuous :
   call (ResJson [49]%N) (EJoin [ECode NoError; EJoin []]) = OResult [49]%N.
 Proof. vm_compute. split; reflexivity. Qed.
 
-(* the excluded cases.  (1) a non-nil error that ErrorCode classifies as NoError (a custom
-   ErrCoder reporting NoError, or a wrapped *Error with that code) is sent as
-   InternalError; (2) a *Error whose Data is not JSON gets no reply at all. *)
+(* the excluded case: a non-nil error that ErrorCode classifies as NoError (a custom ErrCoder
+   reporting NoError, or a wrapped *Error with that code) is sent as InternalError *)
 Lemma code_preserved_refuted_noerror_coder :
   let e := ECoder KValVal NoError [107]%N in
   is_nil e = false /\ code_dom e = false /\ error_code e = NoError /\
@@ -294,10 +379,18 @@ Lemma code_preserved_refuted_wrapped_noerror :
   forall r, outcome_code (call r e) = Some InternalError.
 Proof. repeat split; intros; rewrite ?call_other by reflexivity; reflexivity. Qed.
 
-Lemma code_preserved_refuted_bad_data :
+(* what used to be the second excluded case: before fix F16 a *Error whose Data is not JSON got
+   no reply at all; now it arrives with its code *)
+Lemma code_preserved_refuted_without_F16 :
   let e := EJrpc 7 [109]%N [123; 98; 97; 100]%N (* {bad *) in
-  is_nil e = false /\ code_dom e = false /\ forall r, call r e = OLost.
-Proof. repeat split; intros; rewrite ?call_jrpc; reflexivity. Qed.
+  is_nil e = false /\ code_dom e = true /\ code_dom_pre16 e = false /\
+  (forall r, call_gen false r e = OLost) /\
+  (forall r, outcome_code (call_gen false r e) <> Some (error_code e)) /\
+  (forall r, outcome_code (call r e) = Some (error_code e)).
+Proof.
+  cbn zeta. repeat split; intros; rewrite ?call_pre16_jrpc, ?call_jrpc; try reflexivity.
+  cbn. discriminate.
+Qed.
 
 (* ---- C14: a *Error arrives as it is ------------------------------------------------------------- *)
 
@@ -314,7 +407,7 @@ Proof.
   - intros H. split; [exact (compact_content _ _ H)|exact (compact_squeeze _ _ H)].
 Qed.
 
-(* the data for which a reply is produced: none, or valid JSON *)
+(* the data that reach the caller: none, or valid JSON *)
 Lemma wire_data_some_iff d :
   (exists d', wire_data d = Some d') <-> (d = [] \/ json_valid d = true).
 Proof.
@@ -360,20 +453,47 @@ Lemma error_verbatim_no_data r c m :
 Proof. intros H1 H2 Hm. apply (error_verbatim r c m [] []); auto. Qed.
 
 (* the excluded cases, each with the exact outcome *)
-Lemma error_verbatim_refuted_sentinel_codes r m d d' :
-  wire_data d = Some d' ->
+Lemma error_verbatim_refuted_sentinel_codes r m d :
   call r (EJrpc Cancelled m d) = OErr ECanceled /\
   call r (EJrpc DeadlineExceeded m d) = OErr EDeadline.
-Proof. intros Hd. rewrite !call_jrpc, Hd. split; reflexivity. Qed.
+Proof. rewrite !call_jrpc. split; reflexivity. Qed.
 
 Lemma error_verbatim_refuted_invalid_utf8 :
   valid_utf8 [97; 255]%N = false /\
   forall r, call r (EJrpc 7 [97; 255]%N []) = OErr (EJrpc 7 [97; 239; 191; 189]%N []).
 Proof. split; [reflexivity|]. intros r. rewrite call_jrpc. reflexivity. Qed.
 
-Lemma error_verbatim_refuted_invalid_data r c m d :
-  wire_data d = None -> call r (EJrpc c m d) = OLost.
+(* fix F16: data that are not JSON are dropped; the code is kept, the message is kept up to the
+   UTF-8 sanitising every message undergoes; the reply is never lost *)
+Lemma undeliverable_data_dropped r c m d :
+  wire_data d = None ->
+  call r (EJrpc c m d) = OErr (from_wire {| we_code := c; we_msg := sanitize_utf8 m; we_data := [] |}).
 Proof. intros Hd. rewrite call_jrpc, Hd. reflexivity. Qed.
+
+Lemma undeliverable_data_dropped_explicit r c m d :
+  c <> Cancelled -> c <> DeadlineExceeded -> valid_utf8 m = true -> wire_data d = None ->
+  call r (EJrpc c m d) = OErr (EJrpc c m []) /\ call r (EJrpc c m d) = call r (EJrpc c m []).
+Proof.
+  intros H1 H2 Hm Hd. rewrite (undeliverable_data_dropped r c m d Hd), (valid_utf8_sanitize m Hm).
+  rewrite from_wire_other by assumption. split; [reflexivity|].
+  rewrite call_jrpc. cbn [wire_data]. rewrite (valid_utf8_sanitize m Hm).
+  rewrite from_wire_other by assumption. reflexivity.
+Qed.
+
+(* the data for which this happens: non-empty and not valid JSON *)
+Lemma wire_data_none_iff d : wire_data d = None <-> (d <> [] /\ json_valid d = false).
+Proof.
+  unfold wire_data, json_valid. destruct d as [|b d0].
+  - split; [discriminate|]. intros [H _]. contradiction.
+  - destruct (compact (b :: d0)); split; try discriminate; try (intros [_ H]; discriminate).
+    + intros _. split; [discriminate|reflexivity].
+    + intros _. reflexivity.
+Qed.
+
+(* before the fix the reply was lost *)
+Lemma error_verbatim_refuted_without_F16 r c m d :
+  wire_data d = None -> call_gen false r (EJrpc c m d) = OLost.
+Proof. intros Hd. rewrite call_pre16_jrpc, Hd. reflexivity. Qed.
 
 (* only the *Error itself: a jrpc2.Error value, or a *Error inside a wrapper, is reported
    by code and Error() text, without its data *)
@@ -422,15 +542,14 @@ Qed.
 
 (* exactly the errors classified Cancelled / DeadlineExceeded surface as the sentinel *)
 Lemma sentinel_iff r e :
-  is_nil e = false -> deliverable e = true ->
+  is_nil e = false ->
   (call r e = OErr ECanceled <-> error_code e = Cancelled) /\
   (call r e = OErr EDeadline <-> error_code e = DeadlineExceeded).
 Proof.
-  intros Hn Hdel.
+  intros Hn.
   assert (Hinj : forall a b, OErr a = OErr b <-> a = b) by (intros a b; split; congruence).
   destruct (is_top_jrpc e) eqn:Ht.
-  - destruct e; try discriminate. rewrite call_jrpc. cbn [deliverable] in Hdel.
-    destruct (wire_data data); [|discriminate].
+  - destruct e; try discriminate. rewrite call_jrpc.
     rewrite !Hinj, from_wire_canceled, from_wire_deadline, error_code_jrpc. cbn [we_code]. tauto.
   - rewrite (call_other r e Hn Ht), !Hinj, from_wire_canceled, from_wire_deadline. cbn [we_code].
     split; apply wire_code_eq; discriminate.
@@ -515,7 +634,7 @@ Proof.
   { destruct (is_nil (code_err c)) eqn:E; [|reflexivity]. apply code_err_nil in E. contradiction. }
   rewrite (code_preserved r (code_err c) Hn).
   - rewrite code_err_roundtrip. reflexivity.
-  - unfold code_dom. cbn [code_err deliverable is_top_jrpc andb orb].
+  - unfold code_dom. cbn [code_err is_top_jrpc orb].
     fold (code_err c). rewrite code_err_roundtrip.
     apply Z.eqb_neq in H. rewrite H. reflexivity.
 Qed.
@@ -623,6 +742,56 @@ Example with_data_nonvacuous :
   with_data [c] 7 (WVal [49]%N) = WDCrash.
 Proof. vm_compute. repeat split. Qed.
 
+(* ---- batches: no call loses its reply because of a sibling (fix F16/F17) ----------------------------------- *)
+
+Lemma deliver_never_lost t : deliver t <> WLost.
+Proof.
+  destruct t as [val err]. unfold deliver, deliver_gen, respond. cbn [andb].
+  destruct (is_nil err); [discriminate|].
+  change (transit_gen true) with transit. rewrite transit_total. discriminate.
+Qed.
+
+(* what a call gets is what its reply on the wire says, through filterError *)
+Lemma call_deliver r e :
+  call r e = match deliver (invoke false r e) with
+             | WResult raw => OResult raw
+             | WError w => OErr (from_wire w)
+             | WLost => OLost
+             end.
+Proof. reflexivity. Qed.
+
+(* every call of a batch gets exactly the reply it would get alone *)
+Lemma batch_members_independent cs :
+  batch cs = map (fun c => deliver (invoke false (fst c) (snd c))) cs.
+Proof.
+  unfold batch, batch_gen. fold deliver.
+  assert (H : existsb is_wlost (map (fun c => deliver (invoke false (fst c) (snd c))) cs) = false).
+  { induction cs as [|c cs IH]; [reflexivity|]. cbn [map existsb]. rewrite IH, orb_false_r.
+    pose proof (deliver_never_lost (invoke false (fst c) (snd c))) as Hc.
+    destruct (deliver (invoke false (fst c) (snd c))); try reflexivity. contradiction. }
+  rewrite H. reflexivity.
+Qed.
+
+Lemma batch_never_loses cs w : In w (batch cs) -> w <> WLost.
+Proof.
+  rewrite batch_members_independent. intros H. apply in_map_iff in H as [c [<- _]]. apply deliver_never_lost.
+Qed.
+
+Lemma batch_length cs : List.length (batch cs) = List.length cs.
+Proof. rewrite batch_members_independent. apply map_length. Qed.
+
+(* before the fix one *Error with data that are not JSON silenced the whole batch: the
+   well-formed call next to it got no reply either (finding F17) *)
+Lemma batch_refuted_without_F16 :
+  let ok := (ResJson [116; 114; 117; 101]%N, enil) in
+  let bad := (ResJson [116; 114; 117; 101]%N, EJrpc 7 [110; 111]%N [123; 98; 97; 100]%N) in
+  batch_gen false [ok; bad] = [WLost; WLost] /\
+  batch_gen false [ok] = [WResult [116; 114; 117; 101]%N] /\
+  call_gen false (fst ok) (snd ok) = OResult [116; 114; 117; 101]%N /\
+  batch [ok; bad] = [WResult [116; 114; 117; 101]%N;
+                     WError {| we_code := 7; we_msg := [110; 111]%N; we_data := [] |}].
+Proof. vm_compute. repeat split. Qed.
+
 (* ---- ASCII texts cross the wire unchanged ------------------------------------------------------------------------ *)
 
 Local Open Scope N_scope.
@@ -710,7 +879,7 @@ Lemma cancellation_refuted_if_replaced :
   (forall r e', call_ctx false CtxLive r e' = call r e').
 Proof.
   cbn zeta. repeat split; intros; try reflexivity; try discriminate.
-  unfold call_ctx, call, invoke_ctx, invoke, invoke_gen. destruct (is_nil e'); reflexivity.
+  unfold call_ctx, call, call_gen, settle, invoke_ctx, invoke, invoke_gen. destruct (is_nil e'); reflexivity.
 Qed.
 
 (* ---- non-vacuity of the remaining implications ------------------------------------------------------------------ *)
@@ -724,18 +893,23 @@ Proof. vm_compute. repeat split. Qed.
 
 Example sentinel_iff_nonvacuous :
   let e := EWrap [119]%N (ECode Cancelled) in
-  is_nil e = false /\ deliverable e = true /\ error_code e = Cancelled /\
+  is_nil e = false /\ error_code e = Cancelled /\
   call (ResJson []) e = OErr ECanceled /\
   call (ResJson []) (EJrpc DeadlineExceeded [109]%N []) = OErr EDeadline.
 Proof. vm_compute. repeat split. Qed.
 
-Example error_verbatim_refuted_sentinel_codes_nonvacuous :
-  wire_data [32; 49]%N = Some [49]%N /\ call (ResJson []) (EJrpc Cancelled [109]%N [32; 49]%N) = OErr ECanceled.
+Example error_verbatim_refuted_sentinel_codes_example :
+  call (ResJson []) (EJrpc Cancelled [109]%N [32; 49]%N) = OErr ECanceled /\
+  call (ResJson []) (EJrpc DeadlineExceeded [109]%N [123]%N) = OErr EDeadline.
 Proof. vm_compute. split; reflexivity. Qed.
 
-Example error_verbatim_refuted_invalid_data_nonvacuous :
-  wire_data [123]%N = None /\ call (ResJson []) (EJrpc 7 [109]%N [123]%N) = OLost.
-Proof. vm_compute. split; reflexivity. Qed.
+Example undeliverable_data_dropped_nonvacuous :
+  wire_data [123]%N = None /\ 7 <> Cancelled /\ 7 <> DeadlineExceeded /\ valid_utf8 [109]%N = true /\
+  call (ResJson []) (EJrpc 7 [109]%N [123]%N) = OErr (EJrpc 7 [109]%N []) /\
+  call (ResJson []) (EJrpc 7 [109; 255]%N [123]%N) = OErr (EJrpc 7 [109; 239; 191; 189]%N []) /\
+  call (ResJson []) (EJrpc Cancelled [109]%N [123]%N) = OErr ECanceled /\
+  call_gen false (ResJson []) (EJrpc 7 [109]%N [123]%N) = OLost.
+Proof. vm_compute. repeat split; discriminate. Qed.
 
 Example unmarshalable_unsupported_nonvacuous :
   is_nil (EJoin [enil]) = true /\
